@@ -41,7 +41,9 @@ func concScenarios(thorough bool) []cscen {
 			[][]string{{"SaveBlock(Y)"}, {"GetBlockHashesByHeight(2)"}, {"GetBlockHashesByHeight(2)"}}},
 	}
 	if !thorough {
-		sc = sc[:3] // quick: the header and checkpoint caches; the other kinds run in the thorough tier
+		// quick: the header, checkpoint and main-chain-hash caches (one scenario each kind that has its own fill
+		// path); the remaining scenarios run in the thorough tier
+		sc = []cscen{sc[0], sc[1], sc[2], sc[4]}
 	}
 	if thorough {
 		sc = append(sc,
